@@ -11,7 +11,12 @@
        ("remaining must be empty" rule, merge of the error log).  Leaf parsers are parameters; the only facts
        assumed about them are stated in Proofs/ParseLoopP.v (Section hypotheses);
    (C) the judge of the correspondence run: it recomputes the line table from the text bytes itself and checks
-       the harness observation `(parse tag same (ranges ..) nlines (linelens ..) (linewidths ..) (flags ..) (info ..))`. *)
+       the harness observation
+         `(parse tag same (ranges ..) nlines (linelens ..) (linewidths ..) (flags ..) (info ..) (hook ..))`
+       (harness/src/mode_parse.rs), `(hang)` and `(abort n)` (vlib/core.py: no output for STALL seconds / process died).
+       Known findings (narrow classes decided from the text + the predicted wrong observation): mika-close-loop,
+       exp-nesting, stack-overflow-prefix-run, ebnf-todo-panic, empty-inline-equation, fence-zero-range,
+       fmt-count-underflow. *)
 From Coq Require Import List Arith ZArith String Ascii Bool.
 From MechV Require Import Base.Sexp Base.Obs.
 Import ListNotations.
@@ -503,6 +508,9 @@ Definition kf_fence_zero (text : string) : bool := has_fence text && (contains "
 (* ebnf-todo-panic: a ```ebnf block whose grammar parse_grammar rejects runs into `todo!()` *)
 Definition kf_ebnf (text : string) : bool := has_fence text && contains "ebnf" text.
 
+(* empty-inline-equation: "$$$$" — inline_equation merges zero tokens and unwraps None *)
+Definition kf_empty_eq (text : string) : bool := contains "$$$$" text.
+
 (* ---- the verdict ---- *)
 Definition has_flag (f : string) (fl : list string) : bool := existsb (String.eqb f) fl.
 
@@ -578,6 +586,7 @@ Definition judge_parse (text : string) (o : robs) : sx :=
       match po_tag p with
       | TgPanic =>
           if kf_ebnf text && po_same p then v_kf "ebnf-todo-panic"
+          else if kf_empty_eq text && po_same p then v_kf "empty-inline-equation"
           else v_bad "parser-panicked" (Ax "ok-or-err-in-range")
       | _ =>
           if obs_okb text p then v_ok (match po_tag p with TgOk => "tree" | _ => "report" end)
